@@ -162,3 +162,17 @@ Fixpoint alookup {A} (k : bytes) (m : list (bytes * A)) : option A :=
   | [] => None
   | (k', v) :: r => if beq k k' then Some v else alookup k r
   end.
+
+(* map-style update of an association list: replace the value of an existing
+   key in place, otherwise append *)
+Fixpoint aset {A} (k : bytes) (v : A) (m : list (bytes * A)) : list (bytes * A) :=
+  match m with
+  | [] => [(k, v)]
+  | (k', v') :: r => if beq k k' then (k, v) :: r else (k', v') :: aset k v r
+  end.
+
+Fixpoint aremove {A} (k : bytes) (m : list (bytes * A)) : list (bytes * A) :=
+  match m with
+  | [] => []
+  | (k', v') :: r => if beq k k' then aremove k r else (k', v') :: aremove k r
+  end.
